@@ -73,12 +73,16 @@ CLAIMED = {
          "product on generated programs, with the answer multiset also compared with the model.",
          "6/C16", "Coq proof of semantic soundness of every FD state operation (any operands) + exact ground decisions + brute-force domain-product oracle + differential correspondence",
          "The == path on domain variables and the whole-program lift are not mechanised."),
- "C17": ("PARTIAL. Proved: every propagator's pruning interval contains the value the operand takes in any solution within the current "
-         "domains (all signs; saturating arithmetic under the within-isize guard; corner-product hull for timesfd; quotient narrowing only for "
-         "non-negative domains), intersecting keeps it, and labeling enumerates each domain value once. Completeness and uniqueness over "
-         "whole programs are decided against brute force (query variables, lists, compounds, hidden variables).",
-         "6/C17", "Coq proof that pruning keeps every solution (interval arithmetic over Z) + brute-force projection oracle + differential correspondence",
-         "The lift through the recursive constraint re-run and labeling machinery is not mechanised."),
+ "C17": ("PARTIAL. Proved for ALL states with well-formed domains, every constraint kind and any operands: posting a constraint, posting a "
+         "domain and re-running the store lose no solution - every valuation that solves the state and satisfies the constraint (arithmetic "
+         "values within isize, the guard of the property) solves the returned state, through all prunings, singleton bindings, nested re-runs "
+         "and constraint drops; failure is returned only when no such valuation exists (FDComp: post_constraint_C, post_domain_C, "
+         "run_constraints_C). The pruning intervals contain every solution value (all signs, saturation, corner hull, quotient only for "
+         "non-negative domains), and labeling enumerates each domain value once. Not proved: the same for `==` between two domain "
+         "variables and the lift through goals and labeling to whole programs; completeness and uniqueness over whole programs are decided "
+         "against brute force (query variables, lists, compounds, hidden variables).",
+         "6/C17", "Coq proof that no state operation loses a solution (all constraint kinds, any operands) + brute-force projection oracle + differential correspondence",
+         "The == path on domain variables and the whole-program lift (labeling order, uniqueness) are not mechanised."),
  "C19": ("Theorems by case analysis on groundness, for all states and operands: all ground = decided exactly; two ground = the third bound to "
          "the unique solution (division exact and divisor non-zero), failure when none exists, constraint kept when every integer works; fewer "
          "ground = kept (including all three unbound); never a panic outcome.",
